@@ -200,6 +200,10 @@ func (s *icmpDriver) handleProbeLayers(parser *packets.FrameParser) (*common.Pro
 				IsDest: false,
 			}, nil
 		case layers.ICMPv4TypeEchoReply:
+			if ipPair.SrcAddr.Compare(s.params.Target) != 0 {
+				log.Tracef("icmpDriver ignored echo reply which had another source: expected=%s, actual=%s", s.params.Target, ipPair.SrcAddr)
+				return nil, common.ErrPacketDidNotMatchTraceroute
+			}
 			if parser.ICMP4.Id != s.echoID {
 				return nil, &common.BadPacketError{Err: fmt.Errorf("mismatched echo ID")}
 			}
@@ -255,6 +259,10 @@ func (s *icmpDriver) handleProbeLayers(parser *packets.FrameParser) (*common.Pro
 				IsDest: false,
 			}, nil
 		case layers.ICMPv6TypeEchoReply:
+			if ipPair.SrcAddr.Compare(s.params.Target) != 0 {
+				log.Tracef("icmpDriver ignored echo reply which had another source: expected=%s, actual=%s", s.params.Target, ipPair.SrcAddr)
+				return nil, common.ErrPacketDidNotMatchTraceroute
+			}
 			payload := parser.ICMP6.Payload
 			if len(payload) < 4 {
 				return nil, errPacketDidNotMatchTraceroute
